@@ -80,6 +80,12 @@ fn c06_2() {
     }
 }
 
+fn c01_2() {
+    let e = engine(&["gif|"], false);
+    let b = blocked(&e, "http://x.com/a/bigif", "http://y.com", "image");
+    println!("C01-2 rule `gif|` url .../bigif blocked={b} (expected true: right-anchored suffix match)");
+}
+
 fn c04() {
     // `$domain=a` vs `$domain=~a`: identical badfilter identity?
     let e = engine(&["/adframe.$script,domain=~news.example", "/adframe.$script,domain=news.example,badfilter"], false);
@@ -174,6 +180,7 @@ fn main() {
     let all = which.is_empty();
     let want = |n: &str| all || which.iter().any(|w| w == n);
     if want("c01") { c01(); }
+    if want("c01_2") { c01_2(); }
     if want("c04") { c04(); }
     if want("c05") { c05(); }
     if want("c08") { c08(); }
